@@ -247,7 +247,8 @@ pub fn shrink<C: Check>(c: &C, cfg: &C::Cfg, mut steps: Vec<C::Step>, v: &Violat
         *budget -= 1;
         let mut s = Stats::default();
         match guarded(c, cfg, st, &mut s) {
-            Err(v2) if v2.signature == v.signature => Some(v2),
+            // same violation class = same oracle clause; the operation kind at which it shows may change while shrinking
+            Err(v2) if v2.check == v.check => Some(v2),
             _ => None,
         }
     };
@@ -528,11 +529,17 @@ pub fn run_world<C: Check>(c: &C, prop: &str, tier: Tier, seed: u64, out_dir: &s
         exit = 2;
     }
     let viols = viols.into_inner().unwrap();
-    // shrink at most a handful of distinct signatures (the rest are listed unshrunk) to bound the time spent
+    // fully shrink at most a dozen distinct signatures per world (the rest lose only their tail) to bound the time spent
     let mut shrunk = 0;
     for (sig, (run, cfg, steps, v)) in viols {
         let n0 = steps.len();
-        let (min, v2) = if shrunk < 6 { shrink(c, &cfg, steps, &v) } else { (steps, v) };
+        let (min, v2) = if shrunk < 12 {
+            shrink(c, &cfg, steps, &v)
+        } else {
+            // beyond a dozen distinct signatures per world only the tail after the violating step is cut
+            let cut = (v.step + 1).min(steps.len());
+            (steps[..cut].to_vec(), v)
+        };
         shrunk += 1;
         let path = format!("{}/replays/{}-{}-{}-{}-{}.json", out_dir, prop, c.id(), seed, run, sig.replace('/', "_").replace('.', "_").replace(' ', "_"));
         let _ = std::fs::create_dir_all(format!("{}/replays", out_dir));
@@ -555,7 +562,7 @@ pub fn run_world<C: Check>(c: &C, prop: &str, tier: Tier, seed: u64, out_dir: &s
                 continue;
             }
             println!("VIOLATION property={} replay={}", prop, path);
-            println!("  world={} check={} run={} steps {}->{} detail={}", c.id(), sig, run, n0, min.len(), v2.detail);
+            println!("  world={} check={} run={} steps {}->{} detail={}", c.id(), v2.signature, run, n0, min.len(), v2.detail);
             for s in min.iter().take(40) {
                 println!("    {}", serde_json::to_string(s).unwrap());
             }
